@@ -29,12 +29,27 @@ var poolJSON []byte
 type poolEnt struct {
 	Bits int    `json:"bits"`
 	DER  string `json:"der"`
+	Tag  string `json:"tag,omitempty"` // special keys (unusual public exponent, very large modulus): not in the size pools
 }
 
 var (
 	poolOnce sync.Once
 	pool     map[int][]*rsa.PrivateKey
+	special  map[string]*rsa.PrivateKey
 )
+
+// SpecialRSATags lists the special keys: public exponents 3, 17, 257 and moduli above 4096 bits.
+var SpecialRSATags = []string{"e3-1024", "e3-2048", "e17-2048", "e257-1536", "b5120", "b8192"}
+
+// RSASpecial returns a special pooled key.
+func RSASpecial(tag string) *rsa.PrivateKey {
+	poolOnce.Do(loadPool)
+	k := special[tag]
+	if k == nil {
+		panic("no special RSA key " + tag)
+	}
+	return k
+}
 
 func loadPool() {
 	var ents []poolEnt
@@ -42,11 +57,16 @@ func loadPool() {
 		panic(err)
 	}
 	pool = map[int][]*rsa.PrivateKey{}
+	special = map[string]*rsa.PrivateKey{}
 	for _, e := range ents {
 		der, _ := base64.StdEncoding.DecodeString(e.DER)
 		k, err := x509.ParsePKCS1PrivateKey(der)
 		if err != nil {
 			panic(err)
+		}
+		if e.Tag != "" {
+			special[e.Tag] = k
+			continue
 		}
 		pool[e.Bits] = append(pool[e.Bits], k)
 	}
